@@ -49,6 +49,19 @@ pub mod helpers_check {
             let r = vf_flat_map_collect_raw(x.clone(), |a: i64| (0..a).map(|j| a * 10 + j).collect::<Vec<i64>>());
             let want: Vec<i64> = { let mut w = vec![]; for a in x { for j in 0..*a { w.push(a * 10 + j); } } w };
             check!("vf_flat_map_collect", r == want, json!({"x": x, "observed": r}));
+            // R7 map / flat_map over references: F on a reference to every element in order, G on each of F's results in order, outputs concatenated
+            let (lf, lg): (RefCell<Vec<i64>>, RefCell<Vec<i64>>) = (RefCell::new(vec![]), RefCell::new(vec![]));
+            let r = vf_ref_map_flat_map_collect_raw(x, |a: &i64| { lf.borrow_mut().push(*a); *a + 1 }, |b: i64| { lg.borrow_mut().push(b); (0..b).map(|j| b * 10 + j).collect::<Vec<i64>>() });
+            let want: Vec<i64> = { let mut w = vec![]; for a in x { let b = *a + 1; for j in 0..b { w.push(b * 10 + j); } } w };
+            check!("vf_ref_map_flat_map_collect", r == want && *lf.borrow() == *x && *lg.borrow() == x.iter().map(|a| a + 1).collect::<Vec<_>>(), json!({"x": x, "observed": r}));
+            // rule E11: what the slice patterns `[a]` and `[a, b]` match and bind (the reading the proved helpers vf_slice_view / vf_slice2 are stated against)
+            let view: (usize, Option<&i64>, Option<&i64>) = match x.as_slice() { [] => (0, None, None), [a] => (1, Some(a), None), [a, b] => (2, Some(a), Some(b)), _ => (3, None, None) };
+            let want = match x.len() { 0 => (0, None, None), 1 => (1, Some(&x[0]), None), 2 => (2, Some(&x[0]), Some(&x[1])), _ => (3, None, None) };
+            check!("slice_patterns", view == want && view.1.map(|p| std::ptr::eq(p, &x[0])).unwrap_or(true) && view.2.map(|p| std::ptr::eq(p, &x[1])).unwrap_or(true), json!({"x": x}));
+            // Cow: as_ref / deref give the borrowed or the owned value (assume_specification in contracts/helpers.rs)
+            { use std::borrow::Cow;
+              let (b, o): (Cow<Vec<i64>>, Cow<Vec<i64>>) = (Cow::Borrowed(x), Cow::Owned(x.clone()));
+              check!("cow_accessors", std::ptr::eq(b.as_ref(), x) && o.as_ref() == x && b.len() == x.len() && o.len() == x.len() && *b == *x && *o == *x, json!({"x": x})); }
             // R5 any / all
             for k in 0..3i64 {
                 check!("vf_iter_any", vf_iter_any(x, |a: &i64| *a == k) == (0..x.len()).any(|i| x[i] == k), json!({"x": x, "k": k}));
@@ -112,7 +125,7 @@ pub mod helpers_check {
             facts(&mut rep, "kjson::J", &super::kjson::from_value(&d), 4);
         }
         rep.samples.push(json!({"helpers": ["vf_chain_collect", "vf_zip_all", "vf_enumerate_map_collect", "vf_into_map_collect", "vf_iter_map_collect", "vf_flat_map_collect_raw", "vf_iter_any", "vf_iter_all",
-                                            "vf_enumerate_filter_map_collect_raw", "vf_filter_map_collect_raw", "vf_iter_fold", "vf_map_reduce_or", "vf_chars_count", "vf_str_lt"],
+                                            "vf_enumerate_filter_map_collect_raw", "vf_filter_map_collect_raw", "vf_iter_fold", "vf_map_reduce_or", "vf_chars_count", "vf_str_lt", "vf_ref_map_flat_map_collect_raw", "slice patterns [a] / [a, b]", "Cow::as_ref / deref"],
                                 "bound": "vectors of length 0..=4 over {0,1,2}; 22 strings incl. every UTF-8 length boundary"}));
         rep
     }
